@@ -103,6 +103,8 @@ class C11(Prop):
     # transcription pins (DESIGN II.7, weakest tie): the token text of the hand-transcribed files is the one the model was made from
     tie_modules = {
         "RxModel.GenTie.PinsShare": [],
+        # share / publish translated: first subscribe = register then connect, later ones register only; source subscribed once
+        "RxModel.GenTie.Share": [],
     }
     rule = ("bounded-exhaustive histories over {sub k, unsub k (k<3, labels introduced in order), emit next / "
             "complete / error on the hot source, connect (publish)}: every history up to the tier's length "
